@@ -110,6 +110,50 @@ Theorem C06_decoder_prf_is_spec :
 Proof. exact gm_prf_is_spec. Qed.
 Print Assumptions C06_decoder_prf_is_spec.
 
+(* 3b. Exported keying material (RFC 5705 section 4; GM/T 0024 with P_SM3).  The model of ekmFromMasterSecret
+   takes the context as the Go slice it is: absent (nil, None) or a possibly EMPTY byte string (Some c).  For
+   every unreserved label, every context shorter than 2^16 and every length: it is
+   PRF(master_secret, label, client_random + server_random)                                  without a context,
+   PRF(master_secret, label, client_random + server_random + uint16(len context) + context)  with one (the empty
+   one included: its two zero length bytes are part of the seed); reserved labels and over-long contexts are
+   refused.  Both ends evaluate the same function of (master secret, randoms), so they export the same bytes. *)
+Theorem C06_ekm_is_rfc5705 :
+  forall (hmac : list N -> list N -> list N) hl, 1 <= hl -> (forall k m, length (hmac k m) = hl) ->
+  forall fuel n ms cr sr label context, n <= fuel ->
+    (reserved_label label = false -> context_too_long context = false ->
+       ekmFromMasterSecret_bytes hmac fuel ms cr sr label context n = Ok (EKM_spec hmac n ms cr sr label context)
+       /\ length (EKM_spec hmac n ms cr sr label context) = n)
+    /\ (reserved_label label = true -> ekmFromMasterSecret_bytes hmac fuel ms cr sr label context n = Err 1)
+    /\ (reserved_label label = false -> context_too_long context = true ->
+         ekmFromMasterSecret_bytes hmac fuel ms cr sr label context n = Err 2).
+Proof.
+  intros hmac hl Hpos Hlen fuel n ms cr sr label context Hf. split; [|exact (ekm_refusals hmac fuel n ms cr sr label context)].
+  intros Hr Hc. split.
+  - exact (ekm_is_spec hmac hl Hpos Hlen fuel n ms cr sr label context Hf Hr Hc).
+  - unfold EKM_spec, PRF_spec. destruct context; apply (P_hash_length hmac hl Hpos Hlen).
+Qed.
+Print Assumptions C06_ekm_is_rfc5705.
+
+(* the PRF seed determines the context: an absent context, the empty context and any two different contexts
+   give different seeds (the seed of the empty context is two bytes longer than that of the absent one) *)
+Theorem C06_ekm_context_in_seed :
+  (forall cr sr c1 c2, ekm_seed cr sr c1 = ekm_seed cr sr c2 -> c1 = c2)
+  /\ (forall cr sr, ekm_seed cr sr None = cr ++ sr)
+  /\ (forall cr sr, ekm_seed cr sr (Some []) = cr ++ sr ++ [0%N; 0%N]).
+Proof.
+  split; [exact ekm_seed_injective|]. split; intros cr sr; unfold ekm_seed; cbn.
+  - rewrite app_nil_r. reflexivity.
+  - reflexivity.
+Qed.
+Print Assumptions C06_ekm_context_in_seed.
+
+(* the exporter evaluated by the extracted runner for GMSSL connections is that specification over HMAC-SM3 *)
+Theorem C06_runner_ekm_is_spec :
+  forall n ms cr sr label context, reserved_label label = false -> context_too_long context = false ->
+    gm_ekm n ms cr sr label context = Some (EKM_spec hmac_sm3 n ms cr sr label context).
+Proof. exact gm_ekm_is_spec. Qed.
+Print Assumptions C06_runner_ekm_is_spec.
+
 (* 4. Application data: for every sequence of Write calls (any sizes, including empty ones), whatever decides
    the 1/n-1 split (in particular write_splits, the source's condition: C06_split_condition), every record-size schedule between 1 and maxPlaintext (dynamic record sizing), every
    starting sequence number and every list of Read buffer sizes >= 1: nothing panics or hangs, every
